@@ -413,20 +413,21 @@ func scenarios(tier string, yield func(any) bool) {
 func bounds(tier string) (explore.Bounds, int) {
 	b := explore.DefaultBounds(1)
 	b[explore.KSelect] = 1
-	b[explore.KSched] = 2
+	b[explore.KSched] = 4
+	b[explore.KTime] = 2
 	if tier == "thorough" {
-		b[explore.KSched] = 3
-		b[explore.KTime] = 2
-		return b, 3
+		b[explore.KSched] = 5
+		b[explore.KTime] = 3
+		return b, 4
 	}
-	return b, 2
+	return b, 3
 }
 
 func main() {
 	runner.Main(&runner.Harness{
 		ID:    "C05",
 		Level: "model_checking",
-		Rule: "TCP (Server.handle over a virtual connection) and UDP (servePacket/packetConn over a virtual socket) x matching timeouts {0.3,1,2.5,3 s} x wall-clock phase within the second {0,.3,.7,.999} x route lists {always undecided, non-terminal route then undecided, subroute with its own undecided list, decided after 3 bytes, needs more than the buffer limit} x clients {silent, one byte every 0.1/0.4/1.1 s, half-close, flood of limit+3 chunks, late second write after the timeout}; every interleaving / early timer / select alternative / short read within the joint deviation budget (2 quick, 3 thorough); virtual clock, exact timestamps from the code's own log entries",
+		Rule: "TCP (Server.handle over a virtual connection) and UDP (servePacket/packetConn over a virtual socket) x matching timeouts {0.3,1,2.5,3 s} x wall-clock phase within the second {0,.3,.7,.999} x route lists {always undecided, non-terminal route then undecided, subroute with its own undecided list, decided after 3 bytes, needs more than the buffer limit} x clients {silent, one byte every 0.1/0.4/1.1 s, half-close, flood of limit+3 chunks, late second write after the timeout}; every interleaving / early timer / select alternative / short read within the joint deviation budget (delay bounding; 3 quick, 4 thorough; one less for timeouts above 0.3 s); virtual clock, exact timestamps from the code's own log entries",
 		Assumptions: []string{
 			"computation takes no virtual time; 'not before the timeout' is asserted on every execution, 'not after' only on executions without timer deviations",
 			"zap is given the virtual clock; the moment matching ends is the timestamp of the code's own 'matching connection' log entry",
@@ -437,8 +438,11 @@ func main() {
 			b, tot := bounds(tier)
 			ex := explore.New(b)
 			ex.Total = tot
-			if sc.Timeout > 300 && !(sc.Timeout == 1000 && sc.Phase == 300) {
-				ex.Total-- // the full budget goes to the short histories (0.3 s timeout) and one 1 s case
+			if !(sc.Timeout == 300 && (sc.Phase == 0 || tier == "thorough")) {
+				ex.Total-- // the full budget goes to the short histories (0.3 s timeout)
+			}
+			if sc.Timeout > 1000 && sc.Delta == 100 {
+				ex.Total-- // very long trickle histories
 			}
 			ex.Stop = rep.Expired
 			ex.Explore(func(x *explore.Exec) { check(x, sc, execute(x, sc)) })
